@@ -98,6 +98,13 @@ pub struct RecorderSpec {
     /// unfinalised file: the header declares raw length 0 (the recorder never patched it)
     #[serde(default)]
     pub raw_len_zero: bool,
+    /// n > 0: roughly 1 character event in n repeats the bytes of that character's previous event of the
+    /// same kind (real games repeat values from frame to frame; purely random payloads never do)
+    #[serde(default)]
+    pub sticky: u8,
+    /// n > 0: roughly 1 frame-level event in n has an all-zero or all-ones payload
+    #[serde(default)]
+    pub blank: u8,
 }
 
 #[derive(Serialize, Deserialize, Clone, Debug, PartialEq)]
